@@ -52,8 +52,10 @@ def exc_sx(e, root=None):
         return ['err', ['OSError', ERRNO_NAMES.get(e.errno, e.errno)]]
     import lzma
     import zlib
-    if isinstance(e, (lzma.LZMAError, EOFError, zlib.error)):
+    if isinstance(e, lzma.LZMAError):
         return ['err', ['BadCompressedFile']]
+    if isinstance(e, (EOFError, zlib.error)):
+        return ['err', ['CodecInternalError']]
     for cls, name in INTERNAL:
         if isinstance(e, cls):
             return ['err', ['Internal', name]]
